@@ -7,6 +7,7 @@ package simsync
 
 import (
 	"fmt"
+	"net"
 	"path/filepath"
 	"runtime"
 	"sort"
@@ -277,4 +278,13 @@ func Values[K comparable, V any](m map[K]V) []V {
 	return vs
 }
 
-func render(k any) string { return fmt.Sprintf("%v", k) }
+func render(k any) string {
+	// connections are ordered by their addresses, not by their (process-specific) pointers
+	if c, ok := k.(interface {
+		RemoteAddr() net.Addr
+		LocalAddr() net.Addr
+	}); ok {
+		return fmt.Sprintf("%v>%v", c.RemoteAddr(), c.LocalAddr())
+	}
+	return fmt.Sprintf("%v", k)
+}
